@@ -7,7 +7,7 @@ The snapshot of /repo is overlaid with lines that exist only under cfg(kani) (se
   * `#![cfg_attr(kani, feature(...))]` and `#[cfg(kani)] extern crate self as gc_arena;` in src/lib.rs.
 No executable token of the crate is rewritten or removed.
 """
-import os, re, subprocess, sys, time, json, shutil
+import os, re, subprocess, sys, time, json, shutil, resource
 
 HERE = os.path.dirname(os.path.abspath(__file__))
 VERIF = os.path.abspath(os.path.join(HERE, '..'))
@@ -84,6 +84,12 @@ def parse_output(out, harnesses):
     return res
 
 
+def _limit():
+    # per-process address-space cap: a CBMC query that explodes must not take the machine down (it is then undecided)
+    gb = int(os.environ.get('VERIF_KANI_MEM_GB', '24'))
+    resource.setrlimit(resource.RLIMIT_AS, (gb << 30, gb << 30))
+
+
 def run(repo, scratch, krows, seed, tier):
     """krows: dict row-id -> dict(harness=..., serves=[...], complete=..., features=..., text=...)"""
     from common import Undecided
@@ -108,7 +114,7 @@ def run(repo, scratch, krows, seed, tier):
             cmd += ['--harness', h]
         cmds.append(' '.join(cmd))
         try:
-            p = subprocess.run(cmd, cwd=repo, env=env, capture_output=True, text=True, timeout=int(os.environ.get('VERIF_KANI_TIMEOUT', '3000')))
+            p = subprocess.run(cmd, cwd=repo, env=env, capture_output=True, text=True, timeout=int(os.environ.get('VERIF_KANI_TIMEOUT', '3000')), preexec_fn=_limit)
         except subprocess.TimeoutExpired:
             raise Undecided('kani timed out')
         out = p.stdout + '\n' + p.stderr
@@ -123,6 +129,8 @@ def run(repo, scratch, krows, seed, tier):
             rows[rid] = dict(serves=r['serves'], kind='kani', fn=r.get('fn', h), text=r.get('text', ''), complete=r.get('complete', True))
             if pr is None or pr['status'] is None:
                 raise Undecided('kani gave no verdict for harness %s (see %s)' % (h, scratch))
+            if pr['status'] == 'FAILED' and not pr['failed_checks']:
+                raise Undecided('kani harness %s failed without a failed check (out of memory / solver failure)' % h)
             exp_fail = r.get('should_fail', False)
             ok = (pr['status'] == 'SUCCESSFUL')
             # vacuity: cover points must be satisfied
